@@ -45,3 +45,11 @@ ENTRY = {
         "(parsigex parses payloads by duty type, so types match)",
     ],
 }
+
+# partial signatures reach the store through core/parsigex (peers) and core/validatorapi (own validator client): a
+# valid partial that the receive handler drops or delays never counts towards the threshold. The admission stream of
+# C10 (real parsigex.handle / validatorapi.Component) is part of this check.
+from vlib.props_C10 import ENTRY as _E10
+ENTRY["streams"] = ENTRY["streams"] + [dict(_E10["streams"][0], n_quick=1700, seeds_quick=1)]
+ENTRY["go_tools"] = list(ENTRY.get("go_tools", [])) + [t for t in _E10.get("go_tools", []) if t not in ENTRY.get("go_tools", [])]
+ENTRY["monitor_sigs"] = list(ENTRY.get("monitor_sigs") or ["parsigdb:"]) + ["admit:valid_rejected", "admit:valid_not_delivered", "admit:partial_batch_delivered", "admit:invalid_partial_reached_subscriber", "admit:wrong_share_accepted"]
